@@ -46,6 +46,25 @@ func nodeFacts(x *X) error {
 	}
 	x.Bool("transmitAssignsSeq", CallIndex(x.Calls(tr), "idKeeper.update") >= 0)
 
+	// Core.dispatching: is a bundle the algorithm does not allow to dispatch marked contraindicated?
+	dp, err := x.Func(routingDir, "Core", "dispatching")
+	if err != nil {
+		return err
+	}
+	dpSk := x.Skeleton(dp)
+	x.StrList("dispatchingSkeleton", dpSk)
+	hold := false
+	for i, l := range dpSk {
+		if l == "if !c.routing.DispatchingAllowed(bp)" {
+			for j := i + 1; j < len(dpSk) && strings.HasPrefix(dpSk[j], "  "); j++ {
+				if strings.TrimSpace(dpSk[j]) == "c.bundleContraindicated(bp)" {
+					hold = true
+				}
+			}
+		}
+	}
+	x.Bool("dispatchingHoldsRefused", hold)
+
 	// BundleDescriptor.Sync: the three-way rule and the pending expression
 	sy, err := x.Func(routingDir, "BundleDescriptor", "Sync")
 	if err != nil {
